@@ -60,20 +60,25 @@ def run(ctx):
             variants = sorted(set(x[0] for _, ops in pa["entries"] for x in ops) |
                               set(variant_of_kind.get(k, "?" + k) for _, ops in ao["entries"] for k, _q in ops))
 
-            def count(entries, variant, reflect):
+            def count(entries, variant, reflect, else_of=None):
                 terms = []
-                for names, ops in entries:
+                for ei, (names, ops) in enumerate(entries):
                     n = sum(1 for o in ops if (variant_of_kind.get(o[0], "?" + o[0]) if reflect else o[0]) == variant)
                     if n == 0:
                         continue
                     for nm in names:
                         if nm not in consts:
                             raise Inconclusive("%s::%s is not a declared constant" % (kind, nm))
-                        terms.append(z3.If(contains(v, z3.BitVecVal(consts[nm], 32)), n, 0))
+                        cond = contains(v, z3.BitVecVal(consts[nm], 32))
+                        # an `else if` arm is only taken when none of the earlier arms of its chain was
+                        for pj in (else_of or {}).get(ei, []):
+                            for pn in entries[pj][0]:
+                                cond = z3.And(cond, z3.Not(contains(v, z3.BitVecVal(consts[pn], 32))))
+                        terms.append(z3.If(cond, n, 0))
                 return z3.Sum(terms) if terms else z3.IntVal(0)
             bad_q = [q_ for _n, ops in ao["entries"] for _k, q_ in ops if q_ != "One"]
             ctx.ob("%s/reflection-quantifiers-are-One" % kind, not bad_q, str(bad_q) if bad_q else None)
-            diff = z3.Or(*[count(pa["entries"], var, False) != count(ao["entries"], var, True) for var in variants])
+            diff = z3.Or(*[count(pa["entries"], var, False, pa.get("else_of")) != count(ao["entries"], var, True, ao.get("else_of")) for var in variants])
             blocked = []
             while len(blocked) < 8:
                 st, m = q.check([declared, diff] + [v != b for b in blocked], "mask-multiset")
